@@ -509,10 +509,41 @@ class Engine:
                     n = v.get("alloc_len")
                     ln = Lin.const(n) if isinstance(n, int) and "ptr_bytes" in v else Lin.sym(self.new_sym("plen", 0, ISIZE_MAX))
                     return ("slice", self.new_obj(), Lin.const(0), ln)
+                if to.get("k") == "adt" and (to.get("path") or "").startswith("std::ops::Range") and isinstance(v.get("promoted"), int):
+                    # `(1..=4)` promoted to a constant: an object whose two bounds are the constants of the promoted body
+                    bounds = self._promoted_range(fr.body, v["promoted"])
+                    if bounds is not None:
+                        o = self.new_obj()
+                        self.write_path(st, (o, ("f", 0)), V_int(Lin.const(bounds[0])))
+                        self.write_path(st, (o, ("f", 1)), V_int(Lin.const(bounds[1])))
+                        return ("ptr", (o,))
             return self.fresh_for(st, t, "promoted")
         if self.is_agg(t):
             return ("agg", None)
         return self.fresh_for(st, t, "const")
+
+    def _promoted_range(self, body, idx):
+        """(start, end) of a promoted Range / RangeInclusive constant, or None."""
+        pbs = getattr(body, "promoted", None) or []
+        if idx >= len(pbs):
+            return None
+
+        def cint(op):
+            c = op.get("const") if isinstance(op, dict) else None
+            vv = (c or {}).get("v") or {}
+            return vv.get("int") if isinstance(vv.get("int"), int) else None
+        for blk in pbs[idx].blocks:
+            t = blk.term
+            if t and t["k"] == "call" and (callee_path(t) or "").endswith("RangeInclusive::<Idx>::new") and len(t["args"]) == 2:
+                a, b = cint(t["args"][0]), cint(t["args"][1])
+                if a is not None and b is not None:
+                    return a, b
+            for stmt in blk.stmts:
+                if stmt["k"] == "assign" and stmt["rv"]["k"] == "agg" and (stmt["rv"].get("path") or "").startswith("std::ops::Range") and len(stmt["rv"].get("ops", [])) >= 2:
+                    a, b = cint(stmt["rv"]["ops"][0]), cint(stmt["rv"]["ops"][1])
+                    if a is not None and b is not None:
+                        return a, b
+        return None
 
     def array_len(self, fr, t):
         n = t.get("len")
@@ -1537,11 +1568,11 @@ class Interp:
                     visits[s] = visits.get(s, 0) + 1
                     new = self.normalize_w(allst, jid, widen=visits[s] > 2, hard=visits[s] > 6)
                     tb = self.trip_bounds(fr, s, preds, edge_out)
-                    for l_, ub_ in tb.items():
+                    for l_, (kind_, b_) in tb.items():
                         for st_ in new:
                             v_ = st_.env.get((("L", fr.id, l_),))
                             if v_ is not None and v_[0] == "int" and not st_.dead:
-                                st_.add(v_[1] - ub_)
+                                st_.add((v_[1] - b_) if kind_ == "ub" else (Lin.const(b_) - v_[1]))
                 else:
                     new = self.normalize_w(allst, jid, widen=False)
                 if states_changed(inst.get(s), new):
@@ -1680,23 +1711,32 @@ class Interp:
         if trips is None:
             return {}
         out = {}
+        tail = bool(info.get("zero_at_tail"))
+        if tail:
+            trips = max(trips, 1)      # the body runs before the first test
         for l in info["step_counters"]:
             st_ = info["steps"].get(l) or []
-            if len(st_) != 1 or st_[0] <= 0:
+            if len(st_) != 1 or st_[0] == 0:
                 continue
-            ini = 0
+            up = st_[0] > 0
+            ini = None
             ok = True
             for st in entry:
                 x = st.env.get((("L", fr.id, l),))
-                u = st.upper(x[1]) if x is not None and x[0] == "int" else INF
-                if u is None:
-                    continue
-                if u == INF:
+                if x is None or x[0] != "int":
                     ok = False
                     break
-                ini = max(ini, int(u))
-            if ok:
-                out[l] = ini + st_[0] * trips
+                u = st.upper(x[1]) if up else st.lower(x[1])
+                if u is None:
+                    continue
+                if u in (INF, -INF):
+                    ok = False
+                    break
+                ini = int(u) if ini is None else (max(ini, int(u)) if up else min(ini, int(u)))
+            if ok and ini is not None:
+                # value at the head: after at most `trips` completed iterations (one fewer when the test is at the tail)
+                k = trips - 1 if tail else trips
+                out[l] = ("ub", ini + st_[0] * k) if up else ("lb", ini + st_[0] * k)
         return out
 
     def normalize_w(self, states, jid, widen, hard=False):
